@@ -114,8 +114,68 @@ func MkInt(v *big.Int) *Term { return intern(&Term{Op: "const", Sort: SInt, IV: 
 func MkI(v int64) *Term      { return MkInt(big.NewInt(v)) }
 func MkU(v uint64) *Term     { return MkInt(new(big.Int).SetUint64(v)) }
 func MkStr(s string) *Term   { return intern(&Term{Op: "const", Sort: SStr, SV: s}) }
+var varByID = map[int]*Term{}
+
 func MkVar(name string, s Sort) *Term {
-	return intern(&Term{Op: "var", Sort: s, SV: name})
+	t := intern(&Term{Op: "var", Sort: s, SV: name})
+	termMu.Lock()
+	varByID[t.ID] = t
+	termMu.Unlock()
+	return t
+}
+
+// GuessModel tries a few simple assignments (bounds, small numbers) for the variables of the
+// constraints and returns one that satisfies all of them by direct evaluation (a feasibility witness
+// that needs no solver); nil if none of the guesses works or uninterpreted functions are involved.
+func GuessModel(asserts []*Term) *CachedModel {
+	ids := map[int]bool{}
+	for _, a := range asserts {
+		for _, x := range Symbols(a) {
+			if x < 0 {
+				return nil
+			}
+			ids[x] = true
+		}
+	}
+	for _, mode := range []int{0, 1, 2, 3, 4} {
+		cm := &CachedModel{vals: map[int]MVal{}}
+		for id := range ids {
+			termMu.Lock()
+			v := varByID[id]
+			lo, hi := varBoundLo[id], varBoundHi[id]
+			termMu.Unlock()
+			if v == nil {
+				return nil
+			}
+			switch v.Sort {
+			case SBool:
+				cm.vals[id] = mvB(mode%2 == 1)
+			case SStr:
+				cm.vals[id] = mvS([]string{"", "a", "ab", "jkl", "x"}[mode])
+			case SInt:
+				val := big.NewInt(int64([]int{0, 1, 2, 7, 100}[mode]))
+				if lo != nil && val.Cmp(lo) < 0 {
+					val = lo
+				}
+				if hi != nil && val.Cmp(hi) > 0 {
+					val = hi
+				}
+				cm.vals[id] = mvI(val)
+			}
+		}
+		ok := true
+		for _, a := range asserts {
+			r, e := cm.Eval(a)
+			if !e || !*r.B {
+				ok = false
+				break
+			}
+		}
+		if ok {
+			return cm
+		}
+	}
+	return nil
 }
 
 // FreshVar makes a variable with a name unique in the process.
@@ -141,6 +201,14 @@ func sanitize(s string) string {
 
 func SetVarBounds(v *Term, lo, hi *big.Int) {
 	termMu.Lock()
+	if old, ok := varBoundLo[v.ID]; ok && lo != nil && old.Cmp(lo) != 0 {
+		termMu.Unlock()
+		panic("conflicting bounds for variable " + v.SV)
+	}
+	if old, ok := varBoundHi[v.ID]; ok && hi != nil && old.Cmp(hi) != 0 {
+		termMu.Unlock()
+		panic("conflicting bounds for variable " + v.SV)
+	}
 	if lo != nil {
 		varBoundLo[v.ID] = lo
 	}
@@ -188,7 +256,109 @@ func bigOf(v int64) *big.Int            { return big.NewInt(v) }
 func pow2(n uint) *big.Int              { return new(big.Int).Lsh(big.NewInt(1), n) }
 func mk(op string, s Sort, a ...*Term) *Term { return intern(&Term{Op: op, Sort: s, Args: a}) }
 
-// linear form helpers: flatten sums with constant folding
+// ---------- linear normal form: sums are kept as  c1*a1 + c2*a2 + ... + k  with atoms ordered by id
+
+type linForm struct {
+	coef  map[int]*big.Int
+	atoms map[int]*Term
+	k     *big.Int
+}
+
+func newLin() *linForm {
+	return &linForm{coef: map[int]*big.Int{}, atoms: map[int]*Term{}, k: new(big.Int)}
+}
+
+func (l *linForm) addAtom(a *Term, c *big.Int) {
+	if c.Sign() == 0 {
+		return
+	}
+	if old, ok := l.coef[a.ID]; ok {
+		n := new(big.Int).Add(old, c)
+		if n.Sign() == 0 {
+			delete(l.coef, a.ID)
+			delete(l.atoms, a.ID)
+		} else {
+			l.coef[a.ID] = n
+		}
+		return
+	}
+	l.coef[a.ID] = new(big.Int).Set(c)
+	l.atoms[a.ID] = a
+}
+
+// linAdd accumulates scale*t into l.
+func linAdd(l *linForm, t *Term, scale *big.Int, depth int) {
+	if scale.Sign() == 0 {
+		return
+	}
+	if t.isI() {
+		l.k.Add(l.k, new(big.Int).Mul(t.IV, scale))
+		return
+	}
+	if depth < 64 {
+		switch t.Op {
+		case "+":
+			for _, a := range t.Args {
+				linAdd(l, a, scale, depth+1)
+			}
+			return
+		case "-":
+			linAdd(l, t.Args[0], scale, depth+1)
+			linAdd(l, t.Args[1], new(big.Int).Neg(scale), depth+1)
+			return
+		case "neg":
+			linAdd(l, t.Args[0], new(big.Int).Neg(scale), depth+1)
+			return
+		case "*":
+			if t.Args[1].isI() {
+				linAdd(l, t.Args[0], new(big.Int).Mul(scale, t.Args[1].IV), depth+1)
+				return
+			}
+			if t.Args[0].isI() {
+				linAdd(l, t.Args[1], new(big.Int).Mul(scale, t.Args[0].IV), depth+1)
+				return
+			}
+		}
+	}
+	l.addAtom(t, scale)
+}
+
+func fromLin(l *linForm) *Term {
+	ids := make([]int, 0, len(l.coef))
+	for id := range l.coef {
+		ids = append(ids, id)
+	}
+	sort.Ints(ids)
+	var acc *Term
+	for _, id := range ids {
+		c, a := l.coef[id], l.atoms[id]
+		var term *Term
+		switch {
+		case c.Cmp(big.NewInt(1)) == 0:
+			term = a
+		case c.Cmp(big.NewInt(-1)) == 0:
+			term = mk("neg", SInt, a)
+		default:
+			term = mk("*", SInt, a, MkInt(c))
+		}
+		if acc == nil {
+			acc = term
+		} else {
+			acc = mk("+", SInt, acc, term)
+		}
+	}
+	if acc == nil {
+		return MkInt(l.k)
+	}
+	if l.k.Sign() != 0 {
+		acc = mk("+", SInt, acc, MkInt(l.k))
+	}
+	return acc
+}
+
+var bigOne = big.NewInt(1)
+var bigMinusOne = big.NewInt(-1)
+
 func Add(a, b *Term) *Term {
 	if a.isI() && b.isI() {
 		return MkInt(new(big.Int).Add(a.IV, b.IV))
@@ -199,25 +369,10 @@ func Add(a, b *Term) *Term {
 	if b.isIv(0) {
 		return a
 	}
-	// (x + c1) + c2
-	if b.isI() && a.Op == "+" && len(a.Args) == 2 && a.Args[1].isI() {
-		return Add(a.Args[0], MkInt(new(big.Int).Add(a.Args[1].IV, b.IV)))
-	}
-	if a.isI() {
-		return Add(b, a)
-	}
-	// x + (-x)
-	if b.Op == "neg" && b.Args[0] == a || a.Op == "neg" && a.Args[0] == b {
-		return MkI(0)
-	}
-	// (x - y) + y
-	if a.Op == "-" && a.Args[1] == b {
-		return a.Args[0]
-	}
-	if b.Op == "-" && b.Args[1] == a {
-		return b.Args[0]
-	}
-	return mk("+", SInt, a, b)
+	l := newLin()
+	linAdd(l, a, bigOne, 0)
+	linAdd(l, b, bigOne, 0)
+	return fromLin(l)
 }
 
 func Sub(a, b *Term) *Term {
@@ -230,22 +385,10 @@ func Sub(a, b *Term) *Term {
 	if b.isIv(0) {
 		return a
 	}
-	if b.isI() {
-		return Add(a, MkInt(new(big.Int).Neg(b.IV)))
-	}
-	if a.isIv(0) {
-		return Neg(b)
-	}
-	// (x + y) - y
-	if a.Op == "+" && len(a.Args) == 2 {
-		if a.Args[1] == b {
-			return a.Args[0]
-		}
-		if a.Args[0] == b {
-			return a.Args[1]
-		}
-	}
-	return mk("-", SInt, a, b)
+	l := newLin()
+	linAdd(l, a, bigOne, 0)
+	linAdd(l, b, bigMinusOne, 0)
+	return fromLin(l)
 }
 
 func Neg(a *Term) *Term {
@@ -255,7 +398,9 @@ func Neg(a *Term) *Term {
 	if a.Op == "neg" {
 		return a.Args[0]
 	}
-	return mk("neg", SInt, a)
+	l := newLin()
+	linAdd(l, a, bigMinusOne, 0)
+	return fromLin(l)
 }
 
 func Mul(a, b *Term) *Term {
@@ -272,15 +417,11 @@ func Mul(a, b *Term) *Term {
 		if b.isIv(1) {
 			return a
 		}
-		if b.isIv(-1) {
-			return Neg(a)
-		}
-		// (x*c1)*c2
-		if a.Op == "*" && a.Args[1].isI() {
-			return Mul(a.Args[0], MkInt(new(big.Int).Mul(a.Args[1].IV, b.IV)))
-		}
-		if a.Op == "neg" {
-			return Mul(a.Args[0], MkInt(new(big.Int).Neg(b.IV)))
+		// distribute the constant over sums (keeps everything in linear normal form); ite stays atomic
+		if a.Op == "+" || a.Op == "-" || a.Op == "neg" || a.Op == "*" && (a.Args[1].isI() || a.Args[0].isI()) {
+			l := newLin()
+			linAdd(l, a, b.IV, 0)
+			return fromLin(l)
 		}
 	}
 	// distribute over an ite with constant leaves: keeps products linear for the solvers
@@ -325,6 +466,12 @@ func Div(a, b *Term) *Term {
 	if a.isIv(0) && !(b.isI() && b.IV.Sign() == 0) {
 		return a
 	}
+	// cancel the common constant factor of a linear numerator and a (constant multiple of an atom) denominator
+	if !b.isI() || true {
+		if r := cancelContent(a, b); r != nil {
+			return r
+		}
+	}
 	// div (x*c1) c2 with common factor
 	if b.isI() && b.IV.Sign() > 0 && a.Op == "*" && a.Args[1].isI() && a.Args[1].IV.Sign() > 0 {
 		g := new(big.Int).GCD(nil, nil, a.Args[1].IV, b.IV)
@@ -335,6 +482,33 @@ func Div(a, b *Term) *Term {
 		}
 	}
 	return mk("div", SInt, a, b)
+}
+
+// cancelContent: div (g*a') (g*b') = div a' b' for a positive common constant g (Euclidean division).
+func cancelContent(a, b *Term) *Term {
+	la, lb := newLin(), newLin()
+	linAdd(la, a, bigOne, 0)
+	linAdd(lb, b, bigOne, 0)
+	g := new(big.Int)
+	for _, l := range []*linForm{la, lb} {
+		for _, c := range l.coef {
+			g.GCD(nil, nil, g, new(big.Int).Abs(c))
+		}
+		g.GCD(nil, nil, g, new(big.Int).Abs(l.k))
+	}
+	if g.Cmp(bigOne) <= 0 {
+		return nil
+	}
+	scale := func(l *linForm) *Term {
+		n := newLin()
+		for id, c := range l.coef {
+			n.coef[id] = new(big.Int).Quo(c, g)
+			n.atoms[id] = l.atoms[id]
+		}
+		n.k = new(big.Int).Quo(l.k, g)
+		return fromLin(n)
+	}
+	return Div(scale(la), scale(lb))
 }
 
 func Mod(a, b *Term) *Term {
